@@ -830,6 +830,7 @@ func (c *Ctx) eofUpdatePred(fn *ssa.Function, depth int) func(ssa.Instruction) b
 func narrowingRule(c *Ctx, r *Result, rule string) {
 	readers := c.readerSet(r)
 	per := map[string][]undecidedItem{}
+	perNeg := map[string][]undecidedItem{}
 	n := 0
 	for _, fn := range c.LibFuncs() {
 		if readers[fn] || fn.Blocks == nil {
@@ -859,7 +860,11 @@ func narrowingRule(c *Ctx, r *Result, rule string) {
 			}
 			n++
 			_, thi := fb.typeRange(cv.Type())
-			if _, hi := fb.rng(cv.X); hi <= thi {
+			lo, hi := fb.rng(cv.X)
+			if from.Info()&types.IsUnsigned == 0 && lo < 0 && !fb.ProveGE0At(fb.lin(cv.X), cv) {
+				perNeg[c.Name(fn)] = append(perNeg[c.Name(fn)], undecidedItem{c.InstrPos(cv), "conversion to " + to.Name() + ": operand " + fb.linString(fb.lin(cv.X)) + " is not shown to be >= 0"})
+			}
+			if hi <= thi {
 				return
 			}
 			if fb.ProveGE0At(linConst(thi).add(fb.lin(cv.X), -1), cv) {
@@ -872,6 +877,7 @@ func narrowingRule(c *Ctx, r *Result, rule string) {
 		r.Shortfall(c, rule, fmt.Sprintf("%s: only %d narrowing conversions examined on the writing side", rule, n))
 	}
 	r.ApplyBaselineFile(verifDirGlobal, "narrowing", rule, "narrowing-conversion", per)
+	r.ApplyBaselineFile(verifDirGlobal, "narrowing-neg", rule, "possibly-negative-conversion", perNeg)
 }
 
 func init() {
